@@ -10,8 +10,9 @@ Executable model of the read-to-isoform assignment (property C01):
                              match_inconsistent, assign_to_isoform
   src/polya_verification.py  PolyAVerifier.verify_read_ends and everything below it, shift_polya / shift_polyt
   src/common.py              has_overlapping_features, equal_profiles_in_range, difference_in_present_features
-NOT modelled: JunctionComparator.compare_junctions.  Its result (one event list per isoform) is an INPUT of
-`matchInconsistent` / `assignToIsoform` (`cj`); theorems quantify over it, the correspondence feeds the real events.
+JunctionComparator.compare_junctions: its result (one event list per isoform) is an INPUT of `matchInconsistent` /
+`assignToIsoform` (`cj`) in this file; the theorems of Props/C01, C01Path, C01Far quantify over it.  The comparator itself
+is modelled in Model/JunctionCompare.lean (`compareJunctions`); `assignReadM` there is `assignRead` with `cj` := the model.
 
 Core Lean only.  Isoform ids are positions in the isoform list (the harness names isoforms so that the string order of
 the ids is the list order; every place where the code iterates a `set` of ids ends in a `sorted(...)`).
@@ -773,7 +774,7 @@ def matchConsistent (g : Gene) (p : Params) (rp : ReadProf) : Option (Option Ass
               if ty2.is_inconsistent then some none
               else some (some { ty := ty2, isoMatches := ms2.map (·.2) })
 
-/-! ### the inconsistent path (`compare_junctions` is the input `cj`) -/
+/-! ### the inconsistent path (`compare_junctions` is the input `cj`; modelled in Model/JunctionCompare.lean) -/
 
 /-- `select_similar_isoforms`; `some []` = returns None / nothing -/
 def selectSimilar (g : Gene) (p : Params) (rp : ReadProf) : Option (List IsoInfo) :=
